@@ -16,6 +16,7 @@ import (
 	"os"
 	"os/exec"
 	"path/filepath"
+	"regexp"
 	"sort"
 	"strings"
 	"sync"
@@ -56,6 +57,9 @@ var preload = []string{
 	"github.com/goplus/xgo/tpl/encoding/json", "github.com/goplus/xgo/tpl/encoding/xml", "github.com/goplus/xgo/tpl/encoding/csv",
 	"github.com/goplus/xgo/tpl/encoding/regexp", "github.com/goplus/xgo/tpl/encoding/html", "github.com/goplus/xgo/encoding/html",
 	"github.com/goplus/xgo/encoding/json", "github.com/goplus/xgo/encoding/regexp", "github.com/goplus/xgo/encoding/md",
+	"github.com/goplus/xgo/env", "github.com/goplus/xgo/cl/internal/spx", "github.com/goplus/xgo/cl/internal/spx/pkg",
+	"github.com/goplus/lib/c", "github.com/goplus/lib/py", "github.com/goplus/lib/py/std", "github.com/goplus/lib/py/math",
+	"github.com/goplus/lib/py/numpy", "github.com/goplus/lib/py/torch", "github.com/goplus/lib/py/statistics",
 }
 
 // Env is one offline compile environment: a scratch Go module that resolves
@@ -81,7 +85,7 @@ func WriteModule(dir string) error {
 }
 
 // NewEnv prepares (or, when dir/exports.json exists, re-opens) the environment in dir.
-func NewEnv(dir string) (*Env, error) {
+func NewEnv(dir string, extra ...string) (*Env, error) {
 	e := &Env{Dir: dir, Exports: map[string]string{}}
 	ef := filepath.Join(dir, "exports.json")
 	if b, err := os.ReadFile(ef); err == nil && json.Unmarshal(b, &e.Exports) == nil && len(e.Exports) > 0 {
@@ -94,6 +98,17 @@ func NewEnv(dir string) (*Env, error) {
 	// a file importing nothing, so that the module has a package
 	os.WriteFile(filepath.Join(dir, "doc.go"), []byte("package verifprog\n"), 0o644)
 	args := append([]string{"list", "-e", "-export", "-f", "{{.ImportPath}}\t{{.Export}}"}, preload...)
+	seen := map[string]bool{}
+	for _, p := range preload {
+		seen[p] = true
+	}
+	for _, p := range extra {
+		if !seen[p] && p != "C" && p != "unsafe" {
+			seen[p] = true
+			args = append(args, p)
+			e.Exports[p] = "" // known missing unless listed below
+		}
+	}
 	cmd := exec.Command("go", args...)
 	cmd.Dir, cmd.Env = dir, goEnv()
 	var so, se bytes.Buffer
@@ -102,7 +117,7 @@ func NewEnv(dir string) (*Env, error) {
 	for _, ln := range strings.Split(so.String(), "\n") {
 		fs := strings.SplitN(ln, "\t", 2)
 		if len(fs) == 2 {
-			e.Exports[fs[0]] = fs[1]
+			e.Exports[fs[0]] = strings.TrimSpace(fs[1])
 		}
 	}
 	if e.Exports["fmt"] == "" {
@@ -121,8 +136,14 @@ func (e *Env) init() {
 
 func (e *Env) lookup(path string) (io.ReadCloser, error) {
 	f, ok := e.Exports[path]
+	if path == "C" {
+		f, ok = "", true
+	}
 	if !ok {
 		e.NList++
+		if os.Getenv("COMPA_DEBUG") != "" {
+			fmt.Fprintf(os.Stderr, "slow-path go list %q\n", path)
+		}
 		cmd := exec.Command("go", "list", "-e", "-export", "-f", "{{.Export}}", path)
 		cmd.Dir, cmd.Env = e.Dir, goEnv()
 		out, _ := cmd.Output()
@@ -211,7 +232,8 @@ func MainPkg(pkgs map[string]*ast.Package) *ast.Package {
 type Compiled struct {
 	Pkg      *gogen.Package
 	Err      error  // error returned by NewPackage
-	Panic    string // panic that ESCAPED NewPackage / WriteTo ("" = none), with top frames
+	Panic    string // panic that ESCAPED cl.NewPackage ("" = none), with top frames
+	WPanic   string // panic of gogen's WriteTo on the package NewPackage returned
 	Src      []byte // written Go source (when Err == nil and no panic)
 	WriteErr error
 }
@@ -229,15 +251,22 @@ func (e *Env) Compile(fset *token.FileSet, pkg *ast.Package, fileLine bool) (c C
 		LookupClass: func(ext string) (*cl.Project, bool) { return nil, false }}
 	c.Pkg, c.Err = cl.NewPackage("", pkg, conf)
 	if c.Err == nil && c.Pkg != nil {
-		var buf bytes.Buffer
-		c.WriteErr = c.Pkg.WriteTo(&buf)
-		c.Src = buf.Bytes()
+		func() {
+			defer func() {
+				if r := recover(); r != nil {
+					c.WPanic = PanicKey(r)
+				}
+			}()
+			var buf bytes.Buffer
+			c.WriteErr = c.Pkg.WriteTo(&buf)
+			c.Src = buf.Bytes()
+		}()
 	}
 	return
 }
 
 // BuildDir runs the real x/build helper BuildFSDir on the package (recover of the helper included).
-func (e *Env) BuildDir(files Files, fileLine bool) (out []byte, err error, escaped string) {
+func (e *Env) BuildDir(files Files, fileLine bool) (out []byte, err error, escaped string, fset *token.FileSet) {
 	e.mu.Lock()
 	defer e.mu.Unlock()
 	defer func() {
@@ -245,14 +274,15 @@ func (e *Env) BuildDir(files Files, fileLine bool) (out []byte, err error, escap
 			escaped = PanicKey(r)
 		}
 	}()
-	ctx := build.NewContext(e, token.NewFileSet())
+	fset = token.NewFileSet()
+	ctx := build.NewContext(e, fset)
 	ctx.LoadConfig = func(c *cl.Config) { c.NoFileLine = !fileLine; c.RelativeBase = "/" }
 	out, err = ctx.BuildFSDir(files.memfs(), PkgDir)
 	return
 }
 
 // BuildFile runs the real x/build helper BuildFile on one file.
-func (e *Env) BuildFile(name, src string, fileLine bool) (out []byte, err error, escaped string) {
+func (e *Env) BuildFile(name, src string, fileLine bool) (out []byte, err error, escaped string, fset *token.FileSet) {
 	e.mu.Lock()
 	defer e.mu.Unlock()
 	defer func() {
@@ -260,7 +290,8 @@ func (e *Env) BuildFile(name, src string, fileLine bool) (out []byte, err error,
 			escaped = PanicKey(r)
 		}
 	}()
-	ctx := build.NewContext(e, token.NewFileSet())
+	fset = token.NewFileSet()
+	ctx := build.NewContext(e, fset)
 	ctx.LoadConfig = func(c *cl.Config) { c.NoFileLine = !fileLine; c.RelativeBase = "/" }
 	out, err = ctx.BuildFile(PkgDir+"/"+name, src)
 	return
@@ -269,14 +300,23 @@ func (e *Env) BuildFile(name, src string, fileLine bool) (out []byte, err error,
 // ---------------------------------------------------------------------------------------
 
 // GoCheck parses and type-checks written Go source with go/parser + go/types (export-data
-// importer, offline). Returns "" if accepted, else "<class>: first message".
-func (e *Env) GoCheck(src []byte) (class, msg string) {
+// importer, offline), together with the package's own .go files (mixed packages).
+// Returns "" if accepted, else "<class>", first message.
+func (e *Env) GoCheck(src []byte, pkgFiles Files) (class, msg string) {
 	e.mu.Lock()
 	defer e.mu.Unlock()
 	fset := gotoken.NewFileSet()
-	f, err := goparser.ParseFile(fset, "out.go", src, goparser.AllErrors)
+	f, err := goparser.ParseFile(fset, "xgo_autogen.go", src, goparser.AllErrors)
 	if err != nil {
 		return "go-parse", firstLine(err.Error())
+	}
+	files := []*goast.File{f}
+	for _, n := range pkgFiles.Names() {
+		if strings.HasSuffix(n, ".go") && !strings.HasSuffix(n, "_test.go") {
+			if gf, err := goparser.ParseFile(fset, n, pkgFiles[n], 0); err == nil && gf.Name.Name == f.Name.Name {
+				files = append(files, gf)
+			}
+		}
 	}
 	var first error
 	conf := types.Config{Importer: e, Error: func(err error) {
@@ -284,54 +324,38 @@ func (e *Env) GoCheck(src []byte) (class, msg string) {
 			first = err
 		}
 	}}
-	conf.Check(f.Name.Name, fset, []*goast.File{f}, nil)
+	conf.Check(f.Name.Name, fset, files, nil)
 	if first != nil {
 		return "go-types:" + ErrClass(first.Error()), firstLine(first.Error())
 	}
 	return "", ""
 }
 
-// ErrClass maps a Go type-checker / compiler message to a stable class (identifiers,
-// numbers, quoted text and positions removed).
+var errPhrases = []string{
+	"declared and not used", "imported and not used", "missing return", "assignment mismatch", "redeclared",
+	"not enough arguments", "too many arguments", "not enough return values", "too many return values",
+	"used as value", "is not an expression", "is not a type", "is not used", "no new variables",
+	"non-boolean condition", "cannot use", "cannot convert", "cannot assign", "cannot infer", "cannot range over",
+	"cannot index", "cannot call non-function", "cannot take address", "cannot slice", "cannot indirect",
+	"does not implement", "missing method", "has no field or method", "ambiguous selector", "invalid operation",
+	"invalid argument", "invalid receiver", "invalid recursive type", "invalid composite literal", "invalid use of",
+	"duplicate case", "duplicate key", "duplicate field", "duplicate method", "multiple defaults", "impossible type",
+	"overflows", "truncated", "division by zero", "is not constant", "not a constant", "label", "missing function body",
+	"multiple-value", "undefined", "unknown field", "mixture of", "missing key", "out of range", "must be",
+	"not defined", "relocation target", "expected", "too few values", "too many values", "misplaced", "unreachable",
+	"without instantiation", "not in function call", "cannot be", "non-name", "illegal",
+}
+
+// ErrClass maps a Go type-checker / compiler message to a stable class: the first canonical
+// phrase it contains (identifiers, numbers, quoted text and positions do not matter).
 func ErrClass(msg string) string {
 	msg = firstLine(msg)
-	// strip "file:line:col: "
-	for i := 0; i < 3; i++ {
-		if j := strings.Index(msg, ": "); j >= 0 && j < 40 && strings.ContainsAny(msg[:j], "0123456789") && !strings.Contains(msg[:j], " ") {
-			msg = msg[j+2:]
+	for _, ph := range errPhrases {
+		if strings.Contains(msg, ph) {
+			return strings.ReplaceAll(ph, " ", "-")
 		}
 	}
-	var b strings.Builder
-	words := strings.Fields(msg)
-	n := 0
-	for _, w := range words {
-		if n >= 5 {
-			break
-		}
-		lw := strings.Trim(w, "():,;")
-		if lw == "" {
-			continue
-		}
-		ok := true
-		for _, c := range lw {
-			if !(c >= 'a' && c <= 'z') {
-				ok = false
-				break
-			}
-		}
-		if !ok {
-			continue
-		}
-		if n > 0 {
-			b.WriteByte('-')
-		}
-		b.WriteString(lw)
-		n++
-	}
-	if b.Len() == 0 {
-		return "other"
-	}
-	return b.String()
+	return "other"
 }
 
 func firstLine(s string) string {
@@ -339,4 +363,28 @@ func firstLine(s string) string {
 		return s[:i]
 	}
 	return s
+}
+
+var importLineRe = regexp.MustCompile(`(?m)^\s*(?:import\s+)?(?:[\w.]+\s+)?"([A-Za-z0-9_./-]+)"\s*(?://.*)?$`)
+
+// ImportPaths returns the import-like paths mentioned in the sources (superset; used only to
+// resolve export data in one batch).
+func ImportPaths(items []Item) []string {
+	seen := map[string]bool{}
+	var out []string
+	for _, it := range items {
+		for _, src := range it.Files {
+			if !strings.Contains(src, "import") {
+				continue
+			}
+			for _, m := range importLineRe.FindAllStringSubmatch(src, -1) {
+				if !seen[m[1]] && !strings.HasPrefix(m[1], ".") && !strings.HasPrefix(m[1], "/") && !strings.HasSuffix(m[1], "/") {
+					seen[m[1]] = true
+					out = append(out, m[1])
+				}
+			}
+		}
+	}
+	sort.Strings(out)
+	return out
 }
